@@ -23,7 +23,11 @@ def gen_case(g, allow_outside=True):
     for _ in range(ngti):
         length = int(g.integers(1, 200)) * 2 ** int(g.integers(10, 23))
         gtis.append((t, t + length))
-        gap = max(dead, 1) + int(g.integers(0, 100)) * 2 ** int(g.integers(8, 22))   # gaps >= dead time (else: known finding)
+        gap = max(dead, 1) + int(g.integers(0, 100)) * 2 ** int(g.integers(8, 22))
+        if g.uniform() < 0.3:
+            # a gap shorter than the dead time, down to none at all (back-to-back intervals): the known finding C05-gap-shorter-than-deadtime only
+            # concerns an event less than one dead time before the next start — such events are removed below
+            gap = int(g.choice([0, 0, 1, max(dead // 2, 1)]))
         t = t + length + gap
     stop = gtis[-1][1] + (int(g.integers(0, 3)) * 2 ** 19)
     # events: per GTI none / one / a few / many; optionally exactly on the start, exactly on the stop
@@ -44,6 +48,9 @@ def gen_case(g, allow_outside=True):
         if b - a > 2:
             times.append(int(g.integers(a + 1, b)))
     times = sorted(set(times))
+    # keep the main stream out of the listed finding: no event in the dead time before the start of a later interval
+    for (a, _) in gtis[1:]:
+        times = [x for x in times if not (a - max(dead, 1) < x <= a)]      # (an event exactly on a start is the other listed finding)
     return dict(s0=s0, stop=stop, gtis=gtis, times=times, dead=dead)
 
 
@@ -131,6 +138,12 @@ def o_header(a):
         if len(col[sel]) and col[sel].sum() > 0:
             ok &= 0. < dc <= 1.
         obs = dict(LIVETIME=lt, ONTIME=on, DEADC=dc, col_sum_us=int(col[sel].sum()), ontime_expected=ontime)
+    # the column written by the whole chain (`write_fits` → `_finalize` → `fill_livetime` with the GTI list of the run) is the specification
+    exp = spec_livetime(case)
+    if len(col) == len(exp) and [int(x) for x in col] != exp:
+        j = [i for i in range(len(exp)) if int(col[i]) != exp[i]][0]
+        ok = False
+        obs.update(column_row=j, column_observed=int(col[j]), column_expected=exp[j])
     return bool(ok), obs
 
 
@@ -197,7 +210,7 @@ def file_level(chk, n, tagname):
         except Exception as e:
             ok, obs = False, dict(exception='%s: %s' % (type(e).__name__, e))
         if not ok:
-            chk.fail('impl', 'header LIVETIME/ONTIME/DEADC inconsistent with the LIVETIME column: %s' % obs,
+            chk.fail('impl', 'file written through write_fits: header LIVETIME/ONTIME/DEADC inconsistent with the LIVETIME column, or the column is not the specification: %s' % obs,
                      dict(oracle='header', args=a, observed=obs))
 
 
